@@ -11,7 +11,6 @@ import (
 	"encoding/json"
 	"fmt"
 	"os"
-	"reflect"
 
 	"go.sia.tech/core/types"
 	"verif/harness/internal/chaingen"
@@ -52,6 +51,18 @@ func elems(t *types.V2Transaction) []elemRef {
 		}
 	}
 	return out
+}
+
+func sameProof(a, b []types.Hash256) bool {
+	if len(a) != len(b) {
+		return false
+	}
+	for i := range a {
+		if a[i] != b[i] {
+			return false
+		}
+	}
+	return true
 }
 
 func deepCopy(ts []types.V2Transaction) []types.V2Transaction {
@@ -269,7 +280,7 @@ func (e *env) judge(what string, orig, out []types.V2Transaction, err error, ex 
 				}
 				e.st["inputs-still-ephemeral"]++
 			case wasEph:
-				if !inLedger || el.se.LeafIndex != want.LeafIndex || !reflect.DeepEqual(el.se.MerkleProof, want.MerkleProof) {
+				if !inLedger || el.se.LeafIndex != want.LeafIndex || !sameProof(el.se.MerkleProof, want.MerkleProof) {
 					e.report("c13-rebase-wrong-element", fmt.Sprintf("%s: ephemeral input %s was confirmed on the path but its StateElement (leaf %d) is not the ledger's at the target (leaf %d, known %v)", what, el.key, el.se.LeafIndex, want.LeafIndex, inLedger))
 					return
 				}
@@ -279,8 +290,8 @@ func (e *env) judge(what string, orig, out []types.V2Transaction, err error, ex 
 					e.report("c13-rebase-wrong-element", fmt.Sprintf("%s: input %s is not a leaf of the target's accumulator", what, el.key))
 					return
 				}
-				if el.se.LeafIndex != want.LeafIndex || !reflect.DeepEqual(el.se.MerkleProof, want.MerkleProof) {
-					e.report("c13-rebase-wrong-element", fmt.Sprintf("%s: input %s has leaf %d / a proof of %d hashes, the ledger at the target has leaf %d / %d hashes%s", what, el.key, el.se.LeafIndex, len(el.se.MerkleProof), want.LeafIndex, len(want.MerkleProof), map[bool]string{true: "", false: " (same lengths, different hashes)"}[len(el.se.MerkleProof) != len(want.MerkleProof)]))
+				if el.se.LeafIndex != want.LeafIndex || !sameProof(el.se.MerkleProof, want.MerkleProof) {
+					e.report("c13-rebase-wrong-element", fmt.Sprintf("%s: input %s has leaf %d / a proof of %d hashes, the ledger at the target has leaf %d / %d hashes%s", what, el.key, el.se.LeafIndex, len(el.se.MerkleProof), want.LeafIndex, len(want.MerkleProof), map[bool]string{false: "", true: " (same lengths, different hashes)"}[len(el.se.MerkleProof) == len(want.MerkleProof)]))
 					return
 				}
 				e.st["inputs-equal-to-ledger"]++
@@ -483,6 +494,41 @@ func runCase(cs poolsim.Case, coqWanted bool) (string, *failure, stats, *poolsim
 				n := len(p.SiacoinOutputs) - 1
 				eph := types.SiacoinElement{ID: p.SiacoinOutputID(n), SiacoinOutput: p.SiacoinOutputs[n], StateElement: types.StateElement{LeafIndex: types.UnassignedLeafIndex}}
 				txn = w.Env.V2Spend(tip.FullState, eph, one, one, w.Env.Payees[0], 0, 9)
+			case "diamond":
+				// a transaction spending outputs of two pooled transactions, one an ancestor of the other
+				free := w.Spendable(w.Info(tip), types.Siacoins(200))
+				used := map[types.SiacoinOutputID]bool{}
+				for _, x := range p2 {
+					for _, in := range x.SiacoinInputs {
+						used[in.Parent.ID] = true
+					}
+				}
+				for _, x := range p1 {
+					for _, in := range x.SiacoinInputs {
+						used[in.ParentID] = true
+					}
+				}
+				var in0 *types.SiacoinElement
+				for i := range free {
+					if !used[free[i].ID] {
+						in0 = &free[i]
+						break
+					}
+				}
+				if in0 == nil {
+					continue
+				}
+				b := w.Env.V2Spend(tip.FullState, *in0, one, types.Siacoins(50), w.Env.Addr, 0, 1)
+				a := w.Env.V2Spend(tip.FullState, b.EphemeralSiacoinOutput(1), one, one, w.Env.Payees[0], 0, 2)
+				if _, err, _ := r.Submit2(basis, []types.V2Transaction{b, a}, []poolsim.Meta{m, m}); err != nil {
+					continue
+				}
+				_, p2 = r.Pool()
+				ins := []types.SiacoinElement{b.EphemeralSiacoinOutput(0), a.EphemeralSiacoinOutput(1)}
+				if g.Bool() {
+					ins[0], ins[1] = ins[1], ins[0]
+				}
+				txn = w.Env.V2SpendMulti(tip.FullState, ins, one)
 			case "stale-child":
 				// a transaction built at an earlier block with a confirmed and a pooled parent
 				anc := tip.Parent
@@ -614,6 +660,41 @@ func runCase(cs poolsim.Case, coqWanted bool) (string, *failure, stats, *poolsim
 					continue
 				}
 				txn = w.Env.V1Spend(tip.FullState, p.SiacoinOutputID(n), p.SiacoinOutputs[n].Value, one, one, w.Env.Payees[0], 0, 0)
+			case "diamond":
+				free := w.Spendable(w.Info(tip), types.Siacoins(200))
+				used := map[types.SiacoinOutputID]bool{}
+				for _, x := range p2 {
+					for _, in := range x.SiacoinInputs {
+						used[in.Parent.ID] = true
+					}
+				}
+				for _, x := range p1 {
+					for _, in := range x.SiacoinInputs {
+						used[in.ParentID] = true
+					}
+				}
+				var in0 *types.SiacoinElement
+				for i := range free {
+					if !used[free[i].ID] {
+						in0 = &free[i]
+						break
+					}
+				}
+				if in0 == nil {
+					continue
+				}
+				b := w.Env.V1Spend(tip.FullState, in0.ID, in0.SiacoinOutput.Value, one, types.Siacoins(50), w.Env.Addr, 0, 1)
+				a := w.Env.V1Spend(tip.FullState, b.SiacoinOutputID(1), b.SiacoinOutputs[1].Value, one, one, w.Env.Payees[0], 0, 2)
+				if _, err, _ := r.Submit1([]types.Transaction{b, a}, []poolsim.Meta{m, m}); err != nil {
+					continue
+				}
+				p1, _ = r.Pool()
+				txn = types.Transaction{SiacoinInputs: []types.SiacoinInput{{ParentID: b.SiacoinOutputID(0), UnlockConditions: w.Env.UC}, {ParentID: a.SiacoinOutputID(1), UnlockConditions: w.Env.UC}}}
+				if g.Bool() {
+					txn.SiacoinInputs[0], txn.SiacoinInputs[1] = txn.SiacoinInputs[1], txn.SiacoinInputs[0]
+				}
+				txn.SiacoinOutputs = []types.SiacoinOutput{{Address: w.Env.Addr, Value: b.SiacoinOutputs[0].Value.Add(a.SiacoinOutputs[1].Value)}}
+				w.Env.SignV1(tip.FullState, &txn)
 			case "child-of-v2":
 				if len(p2) == 0 {
 					continue
@@ -728,15 +809,15 @@ func genPlan(g *rng.R, t *chaingen.Tree, pairsBudget int) []poolsim.Step {
 		plan = append(plan, poolsim.Step{Kind: "submit", Flavor: subs[g.Intn(len(subs))], Seed: g.U64()})
 		switch g.Intn(3) {
 		case 0:
-			plan = append(plan, poolsim.Step{Kind: "txset", Flavor: []string{"pooled", "new-child", "child-of-v1", "stale-child"}[g.Intn(4)], Seed: g.U64()})
+			plan = append(plan, poolsim.Step{Kind: "txset", Flavor: []string{"pooled", "new-child", "child-of-v1", "stale-child", "diamond"}[g.Intn(5)], Seed: g.U64()})
 		case 1:
-			plan = append(plan, poolsim.Step{Kind: "parents", Flavor: []string{"pooled", "new-child", "child-of-v2"}[g.Intn(3)], Seed: g.U64()})
+			plan = append(plan, poolsim.Step{Kind: "parents", Flavor: []string{"pooled", "new-child", "child-of-v2", "diamond"}[g.Intn(4)], Seed: g.U64()})
 		}
 	}
-	for _, f := range []string{"pooled", "new-child", "child-of-v1", "stale-child"} {
+	for _, f := range []string{"pooled", "new-child", "child-of-v1", "stale-child", "diamond"} {
 		plan = append(plan, poolsim.Step{Kind: "txset", Flavor: f, Seed: g.U64()})
 	}
-	for _, f := range []string{"pooled", "new-child", "child-of-v2"} {
+	for _, f := range []string{"pooled", "new-child", "child-of-v2", "diamond"} {
 		plan = append(plan, poolsim.Step{Kind: "parents", Flavor: f, Seed: g.U64()})
 	}
 	return plan
@@ -817,7 +898,7 @@ func run(c *hx.Ctx) {
 		return
 	}
 	doCase(longLine(c.Seed))
-	n := c.Scale(36, 1000)
+	n := c.Scale(120, 2000)
 	for i := 0; i < n; i++ {
 		g := c.R.Fork()
 		cs := poolsim.Case{Seed: g.U64(), Regime: []int{2, 1, 2, 5}[i%4], Opts: chaingen.GenOpts{Blocks: 7 + g.Intn(9), Branchiness: 2 + g.Intn(3), TxPerBlock: 1 + g.Intn(3), Jitter: g.Intn(3)}}
